@@ -34,6 +34,7 @@ class FnSpec:
         self.requires = kw.pop('requires', [])
         self.ensures = kw.pop('ensures', [])
         self.loops = kw.pop('loops', {})
+        self.loops_total = kw.pop('loops_total', None)   # number of loops the function has on the pinned tree (default: highest annotated ordinal + 1)
         self.closures = kw.pop('closures', {})
         self.hints = kw.pop('hints', [])
         self.hint_obligations = kw.pop('hint_obligations', [])   # labelled assertions inside hints: E(label, descr, props)
@@ -341,7 +342,7 @@ def generate(unit, repo, vacuity=False, falsify=False, stub_fns=None, drop_asser
                     l2['invariant'] = [('loop%d.inv.%s' % (n, c.label), c.expr) for c in l.get('invariant', [])]
                     l2['ensures'] = [('loop%d.ens.%s' % (n, c.label), c.expr) for c in l.get('ensures', [])]
                     loops[n] = l2
-                text = A.insert_loops(text, loops)
+                text = A.insert_loops(text, loops, total=(getattr(spec, 'loops_total', None) or (max(loops) + 1 if loops else None)))
                 text, lost_hints = A.insert_hints(text, spec.hints)
                 if lost_hints:
                     # a proof hint that has lost its anchor would make a true obligation unprovable: never verify without it
